@@ -118,6 +118,16 @@ func c10Build(feats []string) map[string]any {
 		case "security_scheme":
 			comps["securitySchemes"] = map[string]any{"key": map[string]any{"type": "apiKey", "in": "header", "name": "X-Key"}}
 			op["security"] = []any{map[string]any{"key": []any{}}}
+		case "security_undeclared_scheme":
+			// Validate does not cross-check requirement names against components.securitySchemes
+			comps["securitySchemes"] = map[string]any{"key": map[string]any{"type": "apiKey", "in": "header", "name": "X-Key"}}
+			op["security"] = []any{map[string]any{"Key": []any{}}, map[string]any{"key": []any{}, "other": []any{}}}
+		case "multiple_of_zero_with_default":
+			props["id"].(map[string]any)["multipleOf"] = 0
+			qParam["schema"].(map[string]any)["items"].(map[string]any)["multipleOf"] = 0
+		case "required_param_by_content":
+			params = append(params, map[string]any{"name": "rf", "in": "query", "required": true, "content": map[string]any{"application/json": map[string]any{
+				"schema": map[string]any{"type": "array", "items": intS()}}}})
 		case "mixed_enum":
 			props["name"] = map[string]any{"enum": []any{"a", 1, nil, true, []any{1}, map[string]any{"k": "v"}}}
 		case "nullable_everything":
@@ -263,6 +273,18 @@ func c10Request(feats, muts []string) *c10Req {
 			r.query = append(r.query, "d[a]=1", "d[a][b]=2", "d[o]=x", "d[o][b]=y", "d[]=1", "d[=1", "d]=2")
 		case "query_deep_index":
 			r.query = append(r.query, "d[l][0]=1", "d[l][2]=3", "d[l][-1]=4", "d[l][x]=5", "d[l][99999999]=6")
+		case "query_deep_index_negative":
+			r.query = append(r.query, "d[l][-1]=1", "d[l][0]=1", "d[l][-2]=2")
+		case "query_deep_index_gap":
+			r.query = append(r.query, "d[l][0]=1", "d[l][5]=3")
+		case "query_deep_index_nonnumeric":
+			r.query = append(r.query, "d[l][x]=5", "d[l][]=6")
+		case "query_deep_scalar_for_object":
+			r.query = append(r.query, "d=1", "d[o]=x")
+		case "zero_values":
+			r.path = "/items/0"
+			r.query = []string{"q=0", "q=0", "a=0", "rf=0"}
+			r.body = []byte(`{"id":0,"name":"","tags":[]}`)
 		case "query_huge_number":
 			r.query = []string{"q=" + strings.Repeat("9", 400), "q=1e999", "a=-1e999"}
 		case "query_content_repeated":
